@@ -328,6 +328,20 @@ m("M19i_range_exclusive", ["C19"], [("pdf/src/font.rs", "for c in c1 ..= (c2 as 
 m("M19j_pad_zero", ["C19"], [("pdf/src/font.rs", "self.values.extend(repeat(self.default).take(cid - self.first_char - self.values.len()));", "self.values.extend(repeat(0.0).take(cid - self.first_char - self.values.len()));")], expect="C19-SET", note="gaps read as 0 instead of /DW")
 
 
+RESULTS = os.path.join(VERIF, "selftest", "results.json")
+
+
+def load_results():
+    try:
+        return json.load(open(RESULTS))
+    except Exception:
+        return {}
+
+
+def save_results(r):
+    json.dump(r, open(RESULTS, "w"), indent=1, sort_keys=True)
+
+
 def gen_patch(mu):
     files = {}
     for (fn, old, new) in mu["edits"]:
@@ -370,14 +384,45 @@ def main():
         print("generated %d patches" % len(sel))
     elif cmd == "run":
         bad = 0
-        for x in sel:
+        res = load_results()
+        from concurrent.futures import ThreadPoolExecutor
+
+        def one(x):
             a = [os.path.join(VERIF, "bin", "mutant"), os.path.join(OUT, x["name"] + ".patch")] + x["props"]
             if x["expect"]:
                 a += ["--expect-key", x["expect"]]
             r = subprocess.run(a, stdout=subprocess.PIPE, text=True)
-            sys.stdout.write(r.stdout)
-            bad += r.returncode != 0
+            return x, r
+        with ThreadPoolExecutor(max_workers=int(os.environ.get("MUTANT_JOBS", "6"))) as ex:
+            for x, r in ex.map(one, sel):
+                sys.stdout.write(r.stdout)
+                bad += r.returncode != 0
+                res[x["name"]] = {"props": x["props"], "expect": x["expect"], "note": x["note"], "fired": r.returncode == 0, "output": r.stdout.strip().splitlines()[-1][:400] if r.stdout.strip() else ""}
+        save_results(res)
         print("mutants run=%d not-fired=%d" % (len(sel), bad))
+        return 1 if bad else 0
+    elif cmd == "reverts":
+        fixes = json.load(open(os.path.join(VERIF, "selftest", "fixes.json")))
+        res = load_results()
+        bad = 0
+        from concurrent.futures import ThreadPoolExecutor
+
+        def one(e):
+            pf = os.path.join(OUT, "revert_F%d.patch" % e["n"])
+            if not os.path.exists(pf) or not e["revert_checks"] or not ("F%d" % e["n"]).startswith(pre or "F"):
+                return e, None
+            r = subprocess.run([os.path.join(VERIF, "bin", "mutant"), pf] + e["revert_checks"], stdout=subprocess.PIPE, text=True)
+            return e, r
+        with ThreadPoolExecutor(max_workers=int(os.environ.get("MUTANT_JOBS", "6"))) as ex:
+            for e, r in ex.map(one, fixes):
+                if r is None:
+                    continue
+                sys.stdout.write(r.stdout)
+                bad += r.returncode != 0
+                res["revert_F%d" % e["n"]] = {"props": e["revert_checks"], "expect": None, "note": "reverts " + e["commit"] + ": " + e["subject"], "fired": r.returncode == 0,
+                                              "output": " / ".join(l[:200] for l in r.stdout.strip().splitlines())[:600]}
+        save_results(res)
+        print("reverts not-fired=%d" % bad)
         return 1 if bad else 0
     elif cmd == "build":
         import shutil
@@ -388,6 +433,7 @@ def main():
             try:
                 repo = os.path.join(scratch, "repo")
                 subprocess.check_call(["rsync", "-a", "--exclude", "target", "--exclude", ".git", REPO + "/", repo + "/"])
+                subprocess.check_call("find . -name '*.rs' -o -name 'Cargo.toml' | xargs touch", shell=True, cwd=repo)   # see bin/seedcheck: stale artifacts
                 subprocess.check_call(["patch", "-p1", "-s", "-i", os.path.join(OUT, x["name"] + ".patch")], cwd=repo)
                 env = dict(os.environ, CARGO_TARGET_DIR=os.path.join(VERIF, ".cache", "tgt-test"), CARGO_NET_OFFLINE="true")
                 r = subprocess.run(["cargo", "test", "--workspace", "--no-fail-fast", "--offline"], cwd=repo, env=env,
